@@ -282,7 +282,22 @@ def validate_trace(wd, module, cfg, trace_path, nsplit=None, timeout=1800, env=N
     The trace is split into chunks validated by parallel single-worker TLC runs.  After a rejected record the
     remainder of the chunk is validated too (so one rejection never leaves later records unexamined).
     Returns dict(accepted=n, total=n, rejected=[(global_index, record)], infra=[msgs], states, transitions)."""
-    lines = [ln for ln in open(trace_path).read().split('\n') if ln.strip()]
+    raw = [ln for ln in open(trace_path, errors='replace').read().split('\n') if ln.strip()]
+    lines = []; torn = 0
+    for ln in raw:
+        # a record torn by the death of the process that was writing it (followed on the same line by the parent's crash
+        # record): keep the crash record, drop the fragment
+        try:
+            json.loads(ln)
+            lines.append(ln)
+        except ValueError:
+            torn += 1
+            k = ln.rfind('{"e":"crash"')
+            if k >= 0:
+                try:
+                    json.loads(ln[k:]); lines.append(ln[k:])
+                except ValueError:
+                    pass
     total = len(lines)
     if total == 0:
         return dict(accepted=0, total=0, rejected=[], infra=['empty trace'], states=0, transitions=0)
@@ -303,7 +318,7 @@ def validate_trace(wd, module, cfg, trace_path, nsplit=None, timeout=1800, env=N
                 if e > lo:
                     chunks.append((lo, e))
                 lo = e
-    out = dict(accepted=0, total=total, rejected=[], infra=[], states=0, transitions=0)
+    out = dict(accepted=0, total=total, rejected=[], infra=(['%d torn record fragment(s) dropped (writer died mid-record)' % torn] if torn else []), states=0, transitions=0)
 
     def one(ch):
         lo, hi = ch
@@ -336,7 +351,32 @@ def validate_trace(wd, module, cfg, trace_path, nsplit=None, timeout=1800, env=N
                              (cur, hi, cur + min(consumed, n - 1), (r.error or 'rc=%s' % r.rc)))
                 last = r.out[-3000:]
                 acc += min(consumed, n - 1)
-                cur = cur + min(consumed, n - 1) + 1
+                bad = cur + min(consumed, n - 1)
+                cur = bad + 1
+                if boundary is None:
+                    # stateless trace specification: judge the record on its own.  If TLC again cannot evaluate the
+                    # specification on this single record (no timeout), the record carries a value outside the domain
+                    # the specification is defined on - it is not a behaviour the specification allows.  (The caller
+                    # still re-runs the case before anything is reported.)
+                    p1 = '%s.single%d' % (trace_path, bad)
+                    open(p1, 'w').write(lines[bad] + '\n')
+                    e1 = dict(env or {}); e1['TRACE'] = p1
+                    r1 = tlc(wd, module, cfg, workers=1, env=e1, timeout=timeout, xmx=xmx, tag='tv1_%d' % bad)
+                    try:
+                        os.remove(p1)
+                    except OSError:
+                        pass
+                    if r1.rc == 0 and r1.diameter - 1 >= 1:
+                        acc += 1; infra.pop()        # fine on its own: the earlier failure was the run, not the record
+                        infra.append('record %d: TLC failed in the chunk but accepts the record alone' % bad)
+                    elif r1.rc != 124:
+                        try:
+                            rec = json.loads(lines[bad])
+                        except Exception:
+                            rec = dict(raw=lines[bad][:200])
+                        if isinstance(rec, dict):
+                            rec['_unevaluable'] = (r1.error or 'TLC evaluation error')[:200]
+                        rej.append((bad, rec))
                 continue
             consumed = min(consumed, n - 1)
             acc += consumed
